@@ -52,6 +52,72 @@ def handleC2k (din dout evl evc : String) : String := Id.run do
     (List.range din).map fun i => K s a i)
 
 
+def parseFloats? (s : String) : Option (List Float) :=
+  if s = "-" || s = "" then some [] else
+    (s.splitOn ";").mapM fun t => (t.toNat?).map fun b => Float.ofBits b.toUInt64
+
+/-- the Kraus block of `c2k` / `s2k` / `hf2k`: cut, integer square roots, reshape/transpose (model `choiToKraus`, `cutCount`) -/
+def krausBlock (din dout : Nat) (evl : List Int) (v : Array GInt) : Option String := do
+  let n := din * dout
+  if evl.length ≠ n || v.size ≠ n * n then none
+  let n0 := cutCount evl
+  let ws ← (evl.map fun x => if x ≤ 0 then some 0 else isqrt? x).mapM id
+  let wA := ws.toArray
+  let w : Nat → GInt := fun k => GInt.ofInt (wA.getD k 0)
+  let K := choiToKraus dout n0 (mat n v) w
+  let nk := n - n0
+  pure (s!"{nk}|" ++ gintListStr ((List.range nk).flatMap fun s => (List.range dout).flatMap fun a =>
+    (List.range din).map fun i => K s a i))
+
+/-- `super_op_to_kraus_op(S)` / `hf_channel_to_kraus_op(apply_choi_op(C,·), din)` with an `eigh` that returned integer data:
+answers `<matrix handed to eigh>|<nk>|<kraus>`; the matrix handed to `eigh` is `superToChoi din dout S` -/
+def handleS2k (fromMap : Bool) (din dout m evl evc : String) : String := Id.run do
+  let some dout := dout.toNat? | return "bad-op"
+  let some din := din.toNat? | return "bad-op"
+  let some l := arr? m | return "bad-op"
+  let some evl := parseIntList? evl | return "bad-op"
+  let some v := arr? evc | return "bad-op"
+  let S : Nat → Nat → GInt :=
+    if fromMap then superOfMap din dout (applyChoi din dout (mat (din * dout) l)) else mat (din * din) l
+  if fromMap && l.size ≠ (din * dout) * (din * dout) then return "bad-op"
+  if !fromMap && l.size ≠ (dout * dout) * (din * din) then return "bad-op"
+  let some kb := krausBlock din dout evl v | return "bad-op"
+  return flat (din * dout) (din * dout) (superToChoi din dout S) ++ "|" ++ kb
+
+/-- binary64 complex numbers with numpy's product `(ar·br − ai·bi, ar·bi + ai·br)` -/
+structure CF where
+  re : Float
+  im : Float
+
+instance : Zero CF := ⟨⟨0, 0⟩⟩
+instance : Add CF := ⟨fun a b => ⟨a.re + b.re, a.im + b.im⟩⟩
+instance : Mul CF := ⟨fun a b => ⟨a.re * b.re - a.im * b.im, a.re * b.im + a.im * b.re⟩⟩
+instance : Conj CF := ⟨fun a => ⟨a.re, -a.im⟩⟩
+
+/-- `c2kf din dout <eps bits> <evl bits> <evc re,im bit pairs>`: the part of `choi_op_to_kraus_op` after its `eigh` call, on the
+binary64 data the real `eigh` returned: `N0 = (EVL < zero_eps).sum()` (`cutCountBelow`), `EVC[:,N0:]*sqrt(EVL[N0:])`, reshape/transpose
+(`choiToKraus`).  Output: `nk|re,im;…` as bit patterns with `-0.0` normalised to `0.0` -/
+def handleC2kf (din dout eps evl evc : String) : String := Id.run do
+  let some dout := dout.toNat? | return "bad-op"
+  let some din := din.toNat? | return "bad-op"
+  let some e := eps.toNat? | return "bad-op"
+  let eps := Float.ofBits e.toUInt64
+  let some evl := parseFloats? evl | return "bad-op"
+  let some vc := (if evc = "-" || evc = "" then some [] else (evc.splitOn ";").mapM fun t => match t.splitOn "," with
+    | [a, b] => do let a ← a.toNat?; let b ← b.toNat?; pure (CF.mk (Float.ofBits a.toUInt64) (Float.ofBits b.toUInt64))
+    | _ => none) | return "bad-op"
+  let n := din * dout
+  if evl.length ≠ n || vc.length ≠ n * n then return "bad-op"
+  let n0 := cutCountBelow (fun x e => x < e) eps evl
+  let eA := evl.toArray; let vA := vc.toArray
+  let V : Nat → Nat → CF := fun x y => vA.getD (x * n + y) 0
+  let w : Nat → CF := fun k => ⟨Float.sqrt (eA.getD k 0), 0⟩
+  let K := choiToKraus dout n0 V w
+  let nk := n - n0
+  let nz (x : Float) : Float := x + 0.0
+  return s!"{nk}|" ++ ";".intercalate ((List.range nk).flatMap fun s => (List.range dout).flatMap fun a =>
+    (List.range din).map fun i => let z := K s a i; s!"{(nz z.re).toBits},{(nz z.im).toBits}")
+
 /-- `choi_op_to_bloch_map` on a Gaussian-integer Choi operator, scalars = the binary64 square roots taken exactly;
 output `matA | vecb` as exact rationals (row-major).  Calls the model constants `blochA` / `blochB` (the subjects of
 `C12.bloch_map_affine`) entry by entry — no re-implementation. -/
@@ -67,10 +133,9 @@ def handleBloch (din dout : Nat) (l : Array GInt) : String := Id.run do
 
 /-- binary64 instance of the three analytic operations (libm `log`, IEEE `sqrt`, `np.maximum` on non-NaN input) -/
 instance : Analytic Float := ⟨Float.log, Float.sqrt, fun a b => if a < b then b else a⟩
+/-- `np.abs`, `EVL**alpha` (libm `pow`), `/` -/
+instance : SpecOps Float := ⟨Float.abs, Float.pow, fun a b => a / b⟩
 
-def parseFloats? (s : String) : Option (List Float) :=
-  if s = "-" || s = "" then some [] else
-    (s.splitOn ";").mapM fun t => (t.toNat?).map fun b => Float.ofBits b.toUInt64
 
 /-- `spec ent <eps> <p>`, `spec fid <p> <q>`, `spec rel <eps> <p> <q>`; floats as bit patterns in and out -/
 def handleSpec (args : List String) : String :=
@@ -92,11 +157,33 @@ def handleSpec (args : List String) : String :=
       let [e] := eps | return "bad-op"
       if p.length ≠ q.length then return "bad-op"
       return toString (relEntropySpec e p q).toBits
+  | ["td", p, q] => Id.run do
+      let some p := parseFloats? p | return "bad-op"
+      let some q := parseFloats? q | return "bad-op"
+      if p.length ≠ q.length then return "bad-op"
+      return toString (traceDistComm p q).toBits
+  | ["tdev", evl] => Id.run do
+      -- the eigenvalues of rho - sigma as returned by eigvalsh, passed as data
+      let some evl := parseFloats? evl | return "bad-op"
+      return toString (traceDistSpec evl).toBits
+  | ["renyi", alpha, p] => Id.run do
+      let some a := parseFloats? alpha | return "bad-op"
+      let some p := parseFloats? p | return "bad-op"
+      let [a] := a | return "bad-op"
+      return toString (renyiSpec a p).toBits
   | _ => "bad-op"
 
 def handle (args : List String) : String :=
   match args with
   | "spec" :: rest => handleSpec rest
+  | ["c2kf", din, dout, eps, evl, evc] => handleC2kf din dout eps evl evc
+  | ["s2k", din, dout, m, evl, evc] => handleS2k false din dout m evl evc
+  | ["hf2k", din, dout, m, evl, evc] => handleS2k true din dout m evl evc
+  | ["pur", n, rho] => Id.run do
+      let some n := n.toNat? | return "bad-op"
+      let some r := arr? rho | return "bad-op"
+      if r.size ≠ n * n then return "bad-op"
+      return (purity n (mat n r)).toStr
   | [op, n, dout, din, k] => Id.run do
       if op = "apc" || op = "aps" then return handle2 op n dout din k
       if op = "c2k" then return handleC2k n dout din k
